@@ -589,7 +589,7 @@ func c19ErrorValueFact() c19Fact {
 						}
 					}
 				}
-				if level == 0 {
+				if level < 2 { // helpers are followed two levels
 					if h := p.resolve(x, d); h != nil {
 						hv := map[string]bool{}
 						hp := c19ParamNames(h.Type)
@@ -599,7 +599,7 @@ func c19ErrorValueFact() c19Fact {
 							}
 						}
 						if len(hv) > 0 {
-							scan(h, hv, 1)
+							scan(h, hv, level+1)
 						}
 					}
 				}
